@@ -234,7 +234,7 @@ class Kernel:
 
     def __init__(self, script=(), inject=None, term="now", abrt="die", settle=3, env=None, ppid=1,
                  master_pid=MASTER_PID, fs=None, hb_gap=0.0, on_quiescent=None, late_delay=0.25, max_points=20000,
-                 other_children=0):
+                 other_children=0, pid_order="ascending"):
         self.script = list(script)
         self.script_pos = 0
         self.inject = dict(inject or {})
@@ -243,7 +243,8 @@ class Kernel:
         self.now = 1000.0
         self.procs = {}
         self.reaped = []
-        self.next_pid = master_pid + 1
+        self.next_pid = master_pid + 1 if pid_order == "ascending" else master_pid + 9000
+        self.pid_step = 1 if pid_order == "ascending" else -1      # descending = the kernel's pid counter wrapped around
         self.master_pid = master_pid
         self.ppid = ppid
         self.handlers = {}
@@ -272,6 +273,7 @@ class Kernel:
         self.fork_returns_zero_once = False
         self.arbiter = None
         self.quiescences = 0
+        self.fork_seq = 0
         self.in_midflight = False
         self.script_done_point = None     # npoints when the scripted history was over and settling began
         # children of the master that are not workers (e.g. helpers forked by a server hook)
@@ -279,7 +281,7 @@ class Kernel:
             p = SimProc(self.next_pid, "other", master_pid)
             self.procs[p.pid] = p
             self.fs.live.add(p.pid)
-            self.next_pid += 1
+            self.next_pid += self.pid_step
 
     # ------------------------------------------------------------ process table
     def proc_of(self, worker_obj):
@@ -317,7 +319,7 @@ class Kernel:
 
     # ------------------------------------------------------------ events
     def live_ranked(self):
-        return sorted((p for p in self.children() if p.alive and p.kind == "worker"), key=lambda p: p.pid)
+        return sorted((p for p in self.children() if p.alive and p.kind == "worker"), key=lambda p: getattr(p, "seq", p.pid))
 
     def apply_event(self, ev):
         kind = ev[0]
@@ -434,10 +436,12 @@ class Kernel:
                     k.fork_returns_zero_once = False
                     return 0
                 pid = k.next_pid
-                k.next_pid += 1
+                k.next_pid += k.pid_step
+                k.fork_seq += 1
                 kind = "master2" if k.arbiter is not None and getattr(k.arbiter, "_in_reexec", False) else "worker"
                 p = SimProc(pid, kind, k.master_pid)
                 p.born_at = k.now
+                p.seq = k.fork_seq
                 if kind == "worker":
                     p.obj = k.last_worker_obj
                 k.procs[pid] = p
@@ -454,7 +458,8 @@ class Kernel:
                 if p is None:
                     k.trace.append(("kill-esrch", pid, int(sig)))
                     raise ProcessLookupError(errno.ESRCH, "No such process")
-                tracked = sorted((w.age, wp) for wp, w in dict.items(k.arbiter.WORKERS)) if k.arbiter is not None else []
+                # (birth order, pid) of every tracked worker - birth order is the kernel's, not the arbiter's own age counter
+                tracked = sorted((getattr(k.procs.get(wp), "seq", 0), wp) for wp, w in dict.items(k.arbiter.WORKERS)) if k.arbiter is not None else []
                 k.kills.append((k.now, pid, int(sig), tracked, p.alive))
                 k.trace.append(("kill", pid, int(sig)))
                 if p.alive:
@@ -577,6 +582,8 @@ class Kernel:
 
             @staticmethod
             def monotonic():
+                # murder_workers reads the clock once per worker: a delivery point inside its scan
+                k.point("time.monotonic")
                 return k.now
 
             @staticmethod
